@@ -12,7 +12,7 @@ INC = os.path.join(REPO, "include")
 BUILD = os.path.join(VERIF, "build")
 DRIVERS = os.path.join(VERIF, "drivers")
 SPEC = os.path.join(VERIF, "spec")
-EVID = os.path.join(VERIF, "evidence")
+EVID = os.path.join(os.environ["VERIF_SCRATCH"], "evidence") if os.environ.get("VERIF_SCRATCH") else os.path.join(VERIF, "evidence")
 ASTDUMP = os.path.join(BUILD, "astdump")
 IRDUMP = os.path.join(BUILD, "irdump")
 CLANGXX = "clang++"
@@ -29,7 +29,8 @@ class AnalysisBroken(Exception):
 
 
 def workdir(pid):
-    d = os.path.join(BUILD, "work", pid)
+    # VERIF_SCRATCH: private work area for development runs that must not disturb a concurrent registered run
+    d = os.path.join(os.environ.get("VERIF_SCRATCH") or os.path.join(BUILD, "work"), pid)
     shutil.rmtree(d, ignore_errors=True)
     os.makedirs(d, exist_ok=True)
     return d
@@ -234,7 +235,7 @@ def finish(rep, level, explanation, checker_cmd):
     if unlisted:
         exit_code = 1
     # replay files
-    replay_dir = os.path.join(BUILD, "replay")
+    replay_dir = os.path.join(os.environ.get("VERIF_SCRATCH") or BUILD, "replay")
     os.makedirs(replay_dir, exist_ok=True)
     for old in os.listdir(replay_dir):
         if old.startswith(rep.pid + "_"):
